@@ -72,6 +72,7 @@ type itemState struct {
 	recBefore time.Time    // clock reading before the call that recorded the item
 	others    map[int]bool // distinct other items submitted since
 	tagsUsed  map[int]bool // tags of all submissions since (and including) the recording one
+	recTag    int          // tag of the recording submission
 }
 
 func propCache(c CacheCase) (o pbt.Outcome) {
@@ -113,8 +114,14 @@ func propCache(c CacheCase) (o pbt.Outcome) {
 			ageUpper := after.Sub(st.recBefore)
 			if ageUpper < interval && len(st.others) < c.Capacity {
 				// the cache must still know the item
+				// Only a pure same-tag history is a retransmission. As soon as the
+				// item has been submitted with any other tag (or without one) since
+				// it was recorded, a further submission is a replay, whatever tag
+				// the replayer used for its own earlier attempts.
 				sameNonEmpty := op.Tag != 0 && len(st.tagsUsed) == 1 && st.tagsUsed[op.Tag]
-				mustTrue := op.Tag == 0 || (len(st.tagsUsed) == 1 && st.tagsUsed[0]) || (!st.tagsUsed[op.Tag] && !st.tagsUsed[0])
+				// the recording sender may retransmit under its own tag; anybody else
+				// (another tag, or no tag on either side) is a replayer
+				mustTrue := op.Tag == 0 || st.recTag == 0 || op.Tag != st.recTag
 				switch {
 				case sameNonEmpty:
 					obligations++
@@ -125,7 +132,11 @@ func propCache(c CacheCase) (o pbt.Outcome) {
 				case mustTrue:
 					obligations++
 					if !got {
-						o.Failf("missed-replay", "op %d: item %d was recorded < %v ago (at most %v) and followed by %d < %d other distinct items, yet it is not reported; capacity=%d history %v",
+						sig := "missed-replay"
+						if op.Tag != 0 && st.tagsUsed[op.Tag] && op.Tag != st.recTag {
+							sig = "missed-replay/replayer-tag-recorded"
+						}
+						o.Failf(sig, "op %d: item %d was recorded < %v ago (at most %v) and followed by %d < %d other distinct items, yet it is not reported; capacity=%d history %v",
 							k, op.Item, interval, ageUpper, len(st.others), c.Capacity, c.Capacity, history)
 						return
 					}
@@ -145,6 +156,7 @@ func propCache(c CacheCase) (o pbt.Outcome) {
 			st.recBefore = before
 			st.others = map[int]bool{}
 			st.tagsUsed = map[int]bool{op.Tag: true}
+			st.recTag = op.Tag
 		} else {
 			st.tagsUsed[op.Tag] = true
 		}
